@@ -377,6 +377,15 @@ class World:
                 g = r.choice(plain)
                 comp = lambda: r.choice([r.uniform(-3, 3), r.uniform(-3, 3), 0.1 + 0.2, 2 / 3, -0.0, 0.0, 1e-20, 1.0, -2.5])  # noqa: E731
                 g["p"][r.randrange(len(g["p"]))] = {"c": [comp(), comp()]}
+        if r.random() < 0.08:
+            # custom gates whose definitions hold numeric entries of magnitude 1e-9 .. 1e-10
+            nm = r.choice(["MyTiny", "MyTinyMixed"])
+            g = {"custom": nm, "p": [] if nm == "MyTiny" else [r.choice([0.5, {"sym": r.choice(cfg["symbols"])}])]}
+            if r.random() < 0.3:
+                g = {"w": "ctrl", "n": 1, "of": g}
+            k_ = gen.gate_arity(g)
+            if k_ <= n:
+                c["ops"].append({"gate": g, "q": gen.rand_qubits(r, k_, n)})
         if r.random() < 0.3:
             c["cv"] = 1   # same custom gate names, other definitions (definitions are per circuit)
         if r.random() < 0.15:
